@@ -17,6 +17,7 @@ def run(ck):
     for cfg in ck.configs():
         F = ck.facts(cfg)
         ck.guard("C15-R1", r1_cut_check, ck, F)
+        ck.guard("C15-R1", r1_sole_entry_path, ck, F)
         ck.guard("C15-R2", r2_level_check, ck, F)
         ck.guard("C15-R3", r3_clamp, ck, F)
         ck.guard("C15-R4", r4_estimate, ck, F)
@@ -71,6 +72,21 @@ def r1_cut_check(ck, F):
                 e, enum, labels, oth = switch_on(b, bb)
                 guards.append(e.show()[:60])
         ck.ob(R, "only-nonempty-and-parent-guards", len(guards) == 2 and any("last_key" in g for g in guards) and any("last_mut" in g for g in guards), f"between the size test and the flush only {guards} are tested (block not empty, parent index exists)", b, fl[0])
+
+
+def r1_sole_entry_path(ck, F):
+    """entries reach a data block through Writer::insert only: any other function that appends to a writer's data
+    block (a bulk / streaming entry point) is a second path that the cut test of C15-R1 and the cascade of C15-R2 do
+    not cover.  Functions unknown to the pinned tree are spliced into their callers, so a new public method shows up
+    here under the name of whoever calls it."""
+    R = "C15-R1"
+    who = []
+    for b in F.user_bodies():
+        for s, c, t in calls(b, A("bw_insert")):
+            a = b.arg_exprs(s)
+            if a and any(x.k == "field" and x.x["name"] == "block_writer" for x in a[0].walk()):
+                who.append(b.path)
+    ck.ob(R, "data-entries-only-through-insert", sorted(set(who)) == [A("writer_insert")], f"appends to a Writer's data block: {sorted(set(who))} (expected Writer::insert only)", config=F.config)
 
 
 def r2_level_check(ck, F):
